@@ -27,6 +27,10 @@ FAMILIES = {
 }
 
 PROBE = ['a', '\n', '\r\n', 'ab\ncd', 'x\r\ny', ' ', '0']
+#: non-ASCII probes (used when the codec can encode them): shift-state codecs
+#: such as ISO-2022, HZ or UTF-7 only show their state outside ASCII
+PROBE_WIDE = ['\u00e9', '\u65e5', '\u672c', '\u0416', '\u05d0', '\u03a9', '\uac00',
+              '\u0e01', '\u20ac']
 
 _cache = {}
 
@@ -47,8 +51,15 @@ def stateless(name):
     """enc(a+b) == enc(a) + (enc(b) minus signature) on the probe set."""
     try:
         sig = ''.encode(name)
-        for a in PROBE:
-            for b in PROBE:
+        probe = list(PROBE)
+        for ch in PROBE_WIDE:
+            try:
+                ch.encode(name)
+                probe.append(ch)
+            except UnicodeError:
+                pass
+        for a in probe:
+            for b in probe:
                 ea = a.encode(name)
                 eb = b.encode(name)
                 if not eb.startswith(sig):
@@ -68,7 +79,11 @@ def catalogue():
         return _cache['cat']
     kept = {}
     dropped = []
-    for fam, names in FAMILIES.items():
+    fams = dict(FAMILIES)
+    known = set(n for v in FAMILIES.values() for n in v)
+    # every codec the interpreter registers an alias for
+    fams['other'] = sorted(set(encodings.aliases.aliases.values()) - known)
+    for fam, names in fams.items():
         for n in names:
             if not is_text(n):
                 dropped.append((n, 'not a text codec'))
@@ -76,7 +91,7 @@ def catalogue():
             if not stateless(n):
                 dropped.append((n, 'stateful'))
                 continue
-            kept[canonical(n)] = fam
+            kept.setdefault(canonical(n), fam)
     _cache['cat'] = kept
     _cache['dropped'] = dropped
     return kept
